@@ -31,3 +31,21 @@ Lemma C01_inst_rules_have_names :
   forallb (fun r => negb (match bl_qualnames r with [] => true | _ => false end)) (call_rules ++ import_rules) = true.
 Proof. vm_compute. reflexivity. Qed.
 Print Assumptions C01_inst_rules_have_names.
+
+(* the alias and import tables are written by the two import visitors only (and created by __init__); every
+   other visitor method reads them: a local def/class/assignment never changes what a name denotes for
+   the blacklist - the model's visit_one has exactly these writers *)
+From Bandit Require Import Gen.Locations.
+Lemma C01_inst_name_state_writers :
+  (fix eqb (a b : list (pstr * pstr)) : bool :=
+     match a, b with
+     | [], [] => true
+     | x :: a', y :: b' => pstr_eqb (fst x) (fst y) && pstr_eqb (snd x) (snd y) && eqb a' b'
+     | _, _ => false
+     end) NAME_STATE_WRITERS
+    [(s2p "__init__", s2p "import_aliases"); (s2p "__init__", s2p "imports");
+     (s2p "visit_Call", s2p "import_aliases passed to b_utils.get_call_name");
+     (s2p "visit_Import", s2p "import_aliases"); (s2p "visit_Import", s2p "imports");
+     (s2p "visit_ImportFrom", s2p "import_aliases"); (s2p "visit_ImportFrom", s2p "imports")] = true.
+Proof. vm_compute. reflexivity. Qed.
+Print Assumptions C01_inst_name_state_writers.
